@@ -23,10 +23,12 @@ type C02Cell struct {
 	Position string `json:"position"` // first later last afterskips step
 	ThenSkip bool   `json:"thenskip,omitempty"`
 	Seed     uint64 `json:"seed"`
+
+	prepare bool // replayonce: build the always-failing variant that writes the fail file
 }
 
 var c02Contexts = []string{"body", "action", "inv", "custom", "customretry", "cleanup", "ccleanup", "go"}
-var c02Positions = []string{"first", "later", "last", "afterskips", "step"}
+var c02Positions = []string{"first", "later", "last", "afterskips", "step", "replayonce"}
 
 type c02 struct{}
 
@@ -60,6 +62,11 @@ func buildCell(cell *C02Cell, lastVal int64) (*Prog, CheckCfg) {
 	case "step":
 		cond = &Cond{Draw: -1, Op: "mod", M: 5, C: 2} // the latest draw (the action's own)
 		cfg.Checks = 100
+	case "replayonce":
+		// the test case comes from a fail file and falsifies the property on its first execution only (the
+		// reproduction run passes): still a falsification
+		cond = &Cond{Op: "true"}
+		cfg.Checks = 5
 	default:
 		cond = &Cond{Op: "never"}
 	}
@@ -69,7 +76,12 @@ func buildCell(cell *C02Cell, lastVal int64) (*Prog, CheckCfg) {
 		// roughly half of the test cases are skipped before anything else happens
 		p.Body = append(p.Body, &Stmt{Op: "if", Cond: &Cond{Draw: 0, Op: "mod", M: 2, C: 0}, Body: []*Stmt{{Op: "skip", Kind: "SkipNow"}}})
 	}
-	guarded := func(body []*Stmt) *Stmt { return &Stmt{Op: "if", Cond: cond, Body: body} }
+	guarded := func(body []*Stmt) *Stmt {
+		if cell.Position == "replayonce" && !cell.prepare {
+			return &Stmt{Op: "ifinv", N: 0, Body: body}
+		}
+		return &Stmt{Op: "if", Cond: cond, Body: body}
+	}
 	switch cell.Context {
 	case "body":
 		p.Body = append(p.Body, guarded(sig))
@@ -127,6 +139,13 @@ func buildCell(cell *C02Cell, lastVal int64) (*Prog, CheckCfg) {
 	return p, cfg
 }
 
+func cellValidPos(kind, context, position string, thenSkip bool) bool {
+	if position == "replayonce" {
+		return (context == "body" || context == "cleanup" || context == "action") && !thenSkip
+	}
+	return cellValid(kind, context, thenSkip)
+}
+
 func cellValid(kind, context string, thenSkip bool) bool {
 	nonfatal := sigClass(kind) == "nonfatal"
 	if context == "go" && !nonfatal {
@@ -150,7 +169,7 @@ func allCells() []*C02Cell {
 		for _, ctx := range c02Contexts {
 			for _, pos := range c02Positions {
 				for _, ts := range []bool{false, true} {
-					if cellValid(k, ctx, ts) {
+					if cellValidPos(k, ctx, pos, ts) {
 						out = append(out, &C02Cell{Kind: k, Context: ctx, Position: pos, ThenSkip: ts})
 					}
 				}
@@ -173,7 +192,7 @@ func (p c02) Loop(c *Ctx) {
 			}
 			cl := *cell
 			cl.Seed = shardSeed(c.Seed+uint64(s)*7919, ci) | 1
-			cs := &C02Case{Cell: &cl, MakeCheck: s%4 == 3}
+			cs := &C02Case{Cell: &cl, MakeCheck: s%4 == 3 && cl.Position != "replayonce"}
 			out := p.Run(c, cs)
 			c.Stats.Add(cs, out)
 			if out.Viol != nil {
@@ -214,7 +233,23 @@ func (c02) Run(c *Ctx, csAny any) Outcome {
 				lastVal = dr.X.Log[11].Draws[0].M
 			}
 		}
+		if cs.Cell.Position == "replayonce" {
+			// first a run of the always-failing variant, which leaves a fail file for this test name
+			prep := *cs.Cell
+			prep.prepare = true
+			pprog, pcfg := buildCell(&prep, 0)
+			pcfg.NoFailFile = false
+			pcfg.ShrinkNS = 0
+			runProg(pcfg, pprog)
+			if len(FailFiles()) != 1 {
+				out.Classes = append(out.Classes, "replayonce-no-failfile")
+				return out
+			}
+		}
 		prog, cfg = buildCell(cs.Cell, lastVal)
+		if cs.Cell.Position == "replayonce" {
+			cfg.Seed = cs.Cell.Seed + 17
+		}
 		cellName = fmt.Sprintf("%s/%s/%s/skip=%v", cs.Cell.Kind, cs.Cell.Context, cs.Cell.Position, cs.Cell.ThenSkip)
 	} else {
 		prog, cfg = cs.Case.Prog, cs.Case.Cfg
